@@ -566,6 +566,7 @@ class Sim(object):
             self.exceptions.append(repr(e))
             self.rec("exc", x=type(e).__name__)
         finally:
+            self.rec("reqend", x=cidn)
             self.kernel.settle()
             self.in_cb = False
             if self.record_state and self._changed():
